@@ -641,5 +641,7 @@ func factsC18(r *Repo) []Fact {
 			out = append(out, unknownFact("maxStepsBelowOneRejected", "Bool", "false", where, "runner.run not found"))
 		}
 	}
+	// ---------- who owns the memory of the message history (c18_mem.go) ----------
+	out = append(out, c18MemFacts(rp)...)
 	return out
 }
